@@ -1,4 +1,5 @@
 import IOptProofs.EvInvFin
+import IOptProofs.EvDimFacts
 /-!
 # Integer layer: the backward step inverts the forward step (worker a2)
 
@@ -75,23 +76,16 @@ theorem pm1_zipWith_mulneg : ∀ (w v : List Int), pm1 w = true → pm1 v = true
     exact ⟨by rcases ha.1 with h | h <;> rcases hw.1 with h' | h' <;> simp [h, h'], ih⟩
 
 /-- unpacked finite facts about `node` -/
-theorem node_facts {n d : Nat} (hn : 2 ≤ n ∧ n ≤ 5) (hd : d < 2^n) :
+theorem node_facts {n d : Nat} (hn : Ev.DimOK n) (hd : d < 2^n) :
     (node n d).1 < n ∧ (node n d).2.1.length = n ∧ (node n d).2.2.length = n ∧
     pm1 (node n d).2.1 = true ∧ pm1 (node n d).2.2 = true ∧
     numbr n (node n d).2.1 = (d, (node n d).1, (node n d).2.2) := by
-  have h : nodeOK n d = true := by
-    obtain ⟨h2, h5⟩ := hn
-    have : n = 2 ∨ n = 3 ∨ n = 4 ∨ n = 5 := by omega
-    rcases this with rfl | rfl | rfl | rfl
-    · exact nodeOK2 d hd
-    · exact nodeOK3 d hd
-    · exact nodeOK4 d hd
-    · exact nodeOK5 d hd
+  have h : nodeOK n d = true := nodeOK_of_dimOK hn hd
   simpa [nodeOK, and_assoc] using h
 
 /-- (1) `__CalculateNumbr` inverts `__CalculateNode`: for `d < 2^n`, with `(l, iu, iv) = node n d`,
 `numbr n iu = (d, l, iv)` -/
-theorem numbr_node {n d : Nat} (hn : 2 ≤ n ∧ n ≤ 5) (hd : d < 2^n) :
+theorem numbr_node {n d : Nat} (hn : Ev.DimOK n) (hd : d < 2^n) :
     numbr n (node n d).2.1 = (d, (node n d).1, (node n d).2.2) :=
   (node_facts hn hd).2.2.2.2.2
 
@@ -109,7 +103,7 @@ theorem step_fst (n : Nat) (s : St) (d : Nat) : (step n s d).1 =
 theorem step_snd (n : Nat) (s : St) (d : Nat) : (step n s d).2 =
     List.zipWith (· * ·) (swap0 (node n d).2.1 s.it) s.iw := rfl
 
-theorem step_valid {n : Nat} (hn : 2 ≤ n ∧ n ≤ 5) {s : St} (hs : Valid n s) {d : Nat}
+theorem step_valid {n : Nat} (hn : Ev.DimOK n) {s : St} (hs : Valid n s) {d : Nat}
     (hd : d < 2^n) : Valid n (step n s d).1 := by
   obtain ⟨hl, hu, hv, pu, pv, _⟩ := node_facts hn hd
   obtain ⟨hit, hwl, hw⟩ := hs
@@ -118,13 +112,13 @@ theorem step_valid {n : Nat} (hn : 2 ≤ n ∧ n ≤ 5) {s : St} (hs : Valid n s
   · simp [hwl, hv]
   · exact pm1_zipWith_mulneg _ _ hw (pm1_swap0 _ _ (by rw [hv]; exact hit) pv)
 
-theorem step_snd_length {n : Nat} (hn : 2 ≤ n ∧ n ≤ 5) {s : St} (hs : Valid n s) {d : Nat}
+theorem step_snd_length {n : Nat} (hn : Ev.DimOK n) {s : St} (hs : Valid n s) {d : Nat}
     (hd : d < 2^n) : (step n s d).2.length = n := by
   obtain ⟨hl, hu, hv, pu, pv, _⟩ := node_facts hn hd
   obtain ⟨hit, hwl, hw⟩ := hs
   simp [step_snd, hwl, hu]
 
-theorem step_snd_pm1 {n : Nat} (hn : 2 ≤ n ∧ n ≤ 5) {s : St} (hs : Valid n s) {d : Nat}
+theorem step_snd_pm1 {n : Nat} (hn : Ev.DimOK n) {s : St} (hs : Valid n s) {d : Nat}
     (hd : d < 2^n) : pm1 (step n s d).2 = true := by
   obtain ⟨hl, hu, hv, pu, pv, _⟩ := node_facts hn hd
   obtain ⟨hit, hwl, hw⟩ := hs
@@ -132,7 +126,7 @@ theorem step_snd_pm1 {n : Nat} (hn : 2 ≤ n ∧ n ≤ 5) {s : St} (hs : Valid n
   exact pm1_zipWith_mul _ _ (pm1_swap0 _ _ (by rw [hu]; exact hit) pu) hw
 
 /-- (1) the backward step fed with the forward offsets recovers the digit and the state -/
-theorem invStep_step {n : Nat} (hn : 2 ≤ n ∧ n ≤ 5) {s : St} (hs : Valid n s) {d : Nat}
+theorem invStep_step {n : Nat} (hn : Ev.DimOK n) {s : St} (hs : Valid n s) {d : Nat}
     (hd : d < 2^n) : invStep n s (step n s d).2 = ((step n s d).1, d) := by
   obtain ⟨hl, hu, hv, pu, pv, hnum⟩ := node_facts hn hd
   obtain ⟨hit, hwl, hw⟩ := hs
